@@ -18,6 +18,7 @@ const goDidVC = "github.com/nuts-foundation/go-did/vc"
 
 func c12(r *Report) {
 	defer c12Seed5(r)
+	defer c12Seed6(r)
 	p := r.P
 	r.Explanation = "The agreement between the wallet's Match and the verifier's Validate over all definitions and wallets is a relation between two computations on run-time values and is NOT decided. Decided are the structural necessary conditions on both sides. Verifier: Validate succeeds (non-empty envelope) only after Resolve, per-presentation signer derivation, re-matching (Build), equal credential counts and a per-descriptor raw-credential comparison, and returns the re-matched credentials; the empty-envelope success is reachable only when the definition requires no credentials; Resolve refuses a second mapping for the same descriptor and records only successfully resolved credentials; resolveCredential yields a credential only via a successful JSONPath lookup, a parse in the format the mapping names and a checked type assertion (or the nested mapping). Wallet: a candidate gets a credential only if the constraints and both format designations match; matchCredential/matchConstraint/matchField/matchFilter report a match only through their sub-matchers (every type-switch arm of matchFilter compares filter.Type before the type-only success); matchBasic succeeds only if no descriptor is unmatched; Build reports an error when nothing was selected and credentials are required; the submission-requirement rules (all/count/min) refuse short selections; the i-th mapping's path index equals its position and refers to the i-th returned credential taken from the same candidate as the descriptor id; credential equality is whole-content equality. Claims: a duplicate constraint field id across definitions is refused."
 	r.NotDecided = []string{"Match/Validate agreement over generated definitions and wallets (relational, run-time)", "JSONPath / regular-expression semantics", "submission-requirement arithmetic beyond the refusal comparisons (e.g. max=0)", "duplicate field ids within one definition (ResolveConstraintsFields lets the last credential win)"}
